@@ -3,6 +3,10 @@ import os, math
 import vlib, stats
 
 PROPS_MODULE = "Q1t.Props.C01"
+# the key theorems of Q1t/Props/C01.lean (their absence fails the check)
+REQUIRED = ["histogram_gf_abstract", "prob0_eq_born", "exec_gf_partial", "histogram_gf_partial", "zero_prob_never_partial", "exec_total_partial", "hyps_arith_complex",
+            "histogram_gf_example", "peek_peek_not_multinomial", "measure_resetall_measure_not_multinomial",
+            "stab_reset_bell_not_born", "stab_peekall_bell_zero_prob_value"]
 ALARM_P = 1e-9
 
 
@@ -38,7 +42,7 @@ def multinomial2(born):
 
 def run(ctx):
     vlib.translate(ctx, ["PhaseTable"])
-    vlib.prove(ctx, PROPS_MODULE, ["drv_c01", "drv_c02"], [])
+    vlib.prove(ctx, PROPS_MODULE, ["drv_c01", "drv_c02"], REQUIRED)
     # (A) the trace correspondence of the simulator model (shared with C02)
     import props.c02 as c02
     sub = dict(c02.SPEC)
